@@ -355,6 +355,18 @@ def generate(tier, seed, ctx):
         for i1 in range(-2, n + 3):
             for i2 in range(0, n + 3):
                 R.append("c19.sublist %s %d %d" % (ilst(v), i1, i2))
+    # Sub_List at the boundary values of its index types (int i1, unsigned int i2), for int, double and string elements:
+    # the clamp must hold for EVERY upper index at or beyond the end (theorem subList_clamp: indices as unbounded naturals)
+    words = ["a", "bc", "def", "g", "hi", "jkl", "m", "no"]
+    for n in (0, 1, 3, 5, 8) if thorough else (0, 1, 3, 5):
+        vi_ = [10 + i for i in range(n)]
+        vd_ = [0.5 * i - 1.0 for i in range(n)]
+        vs_ = words[:n]
+        for i1 in sorted({-2 ** 31, -2, -1, 0, 1, n - 1, n, n + 1, 2 ** 31 - 1}):
+            for i2 in sorted({0, 1, max(n - 1, 0), n, n + 1, 2 ** 31 - 1, 2 ** 31, 2 ** 32 - 2, 2 ** 32 - 1}):
+                R.append("c19.sublist %s %d %d" % (ilst(vi_), i1, i2))
+                R.append("c19.sublistd %s %d %d" % (lst(vd_), i1, i2))
+                R.append("c19.sublists %s %d %d" % ("%d %s" % (n, " ".join(vs_)) if n else "0", i1, i2))
     # --- summary statistics with law companions ---------------------------------------------------
     ctx["groups"] = {}
     for g in range(150 if thorough else 50):
@@ -521,6 +533,25 @@ def compare(rq, impl, model, ctx):
     elif op in ("c19.listseq", "c19.contains", "c19.combine", "c19.findidx", "c19.flatten", "c19.transpose", "c19.sublist"):
         if _ints(ti) != _ints(tm):
             out.append(fail("prop", op[4:] + ": differs from its element-wise definition", ""))
+    elif op in ("c19.sublistd", "c19.sublists"):
+        n = int(a[0])
+        i1, i2 = int(a[-2]), int(a[-1])
+        if op == "c19.sublistd":
+            src = [fl(t) for t in a[1:1 + n]]
+            got = [fl(t) for t in ti[1:]]
+            mod = [fr(t) for t in tm[1:]]
+            same_as_model = len(got) == len(mod) and all(Fraction(g) == m for g, m in zip(got, mod))
+        else:
+            src = a[1:1 + n]
+            got = ti[1:]
+            same_as_model = got == tm[1:]
+        # the element-wise definition, evaluated on the request: the inclusive slice [max(0,i1) .. min(i2, size-1)]
+        want = src[max(0, i1):min(i2, n - 1) + 1] if n else []
+        if int(ti[0]) != len(got) or got != want:
+            out.append(fail("prop", op[4:] + ": differs from its element-wise definition (inclusive slice, upper index clamped to the last element)",
+                            "got %d elements, definition gives %d" % (len(got), len(want))))
+        elif not same_as_model:
+            out.append(fail("corr", op[4:] + ": the model disagrees with the definition evaluated on the request", ""))
     elif op == "c19.dpcmp":
         v1, v2 = fl(a[0]), fl(a[2])
         bi, bm = [int(t) for t in ti], [int(t) for t in tm]
@@ -589,7 +620,7 @@ def _key(op, a, model):
         return (op, (mn > mx) - (mn < mx), min(abs(mx - mn) % st, 2), min(st, 4))
     if op == "c19.closest":
         return (op, int(a[0]), model)
-    if op == "c19.sublist":
+    if op in ("c19.sublist", "c19.sublistd", "c19.sublists"):
         return (op, a[0], a[-2], a[-1])
     if op == "c19.dpcmp":
         return (op, model)
